@@ -294,43 +294,6 @@ def selfcheck_reference(ctx, rng):
     ctx.oblige("reference decoder/encoder (lib/pymarshal.py) agrees with CPython 3.11's marshal on %d corpus files" % n, not bad, "; ".join(bad[:3]))
 
 
-def domain_pass(ctx, cases, impl):
-    """How much of what is sampled do C02_roundtrip / C02_rewritten_file_rereads speak about?  The extracted
-    pyc_domain decides, per input, whether the tree read from it meets the hypotheses of the theorems (dom) and
-    whether the payload written for it is read back as that tree (rr).  dom without rr would contradict
-    pyc_domain_sound; an input outside the domain whose output does not read back is searched for here and
-    reported: the theorems say nothing about it, the implementation's output is then compared by the oracle."""
-    from framework import Case as _Case, run_model
-    dcases = [_Case(c.cid, "pyc-domain", None, c.data, tags=c.tags) for c in cases if c.handler == "pyc"]
-    res = run_model(ctx, dcases, release=(ctx.tier == "thorough"))
-    counts = {}
-    bad, outside_fail = [], []
-    rewritten_in, rewritten = 0, 0
-    for c in dcases:
-        r = res.get(c.cid)
-        cls = r[0] if r else "missing"
-        counts[cls] = counts.get(cls, 0) + 1
-        i = impl.get(c.cid)
-        if i is not None and i[0] in ("Replaced", "Rewritten", "Noop"):
-            rewritten += 1
-            if cls == "Dom11":
-                rewritten_in += 1
-        if cls == "Dom10" or cls == "missing":
-            bad.append(c)
-        if cls == "Dom00":
-            outside_fail.append(c)
-    ctx.oblige("domain: no sampled input meets the hypotheses of C02_rewritten_file_rereads while its output fails to read back (extracted pyc_domain on %d inputs: %s)"
-               % (len(dcases), ", ".join("%s=%d" % kv for kv in sorted(counts.items()))), not bad,
-               "; ".join("%s tags=%s" % (c.cid, ",".join(c.tags)) for c in bad[:5]))
-    ctx.oblige("domain: the theorems cover the inputs the handler accepts (%d of %d accepted inputs are inside the domain)" % (rewritten_in, rewritten),
-               rewritten == 0 or rewritten_in * 10 >= rewritten * 9,
-               "only %d of %d accepted inputs are inside the domain of the theorems" % (rewritten_in, rewritten))
-    if outside_fail:
-        ctx.notes.append("%d input(s) outside the theorems' domain whose model output does not read back as the same tree (decided by the oracle on the implementation's output): %s"
-                         % (len(outside_fail), ", ".join("%s[%s]" % (c.cid, ",".join(c.tags)) for c in outside_fail[:5])))
-    ctx.coverage["theorem_domain"] = counts
-
-
 def run(ctx):
     rng = random.Random(ctx.seed)
     coq_property(ctx)
@@ -341,7 +304,7 @@ def run(ctx):
     impl, model, mism = hd.differential(ctx, cases, "pyc")
     known = hd.known_kinds_for("C02")
     fails = hd.apply_oracle(ctx, cases, impl, oracle, known)
-    domain_pass(ctx, cases, impl)
+    hd.domain_pass(ctx, cases, impl, ("pyc",), "C02_rewritten_file_rereads")
     ctx.coverage.update({
         "evaluations": len(cases),
         "distinct_nontrivial": hd.distinct_nontrivial(cases, impl),
